@@ -161,6 +161,12 @@ def _gen_query(rng, world, heavy_w):
             what = "psd_dft"      # with a user-supplied kernel file (a good one, or one with a spreadsheet error in a cell)
             q.update(q=what, iso=i, kw={"kernel": rng.choice(["@BADKERNEL", "@BADKERNEL", "@GOODKERNEL"])})
             return q
+        if rng.random() < 0.05:
+            # the kernel given in other units than it is stored in (the next plain call must not inherit them)
+            q.update(q="psd_dft", iso=i, kw=rng.choice([{"kernel_units": {"loading_basis": "volume_gas", "loading_unit": "cm3"}},
+                                                        {"kernel_units": {"loading_unit": "mmoles"}},
+                                                        {"kernel_units": {"pressure_mode": "relative%"}}]))
+            return q
         q.update(q=what, iso=i)
         if what in ("area_BET", "area_langmuir"):
             q["kw"] = rng.choice([{}, {}, {"p_limits": [0.05, 0.3]}, {"branch": "des"}, {"p_limits": [0.5, 0.1]}])
